@@ -14,7 +14,7 @@ def tu_check(tu):
 
 def run(tier="quick", seed=0, use_cache=True):
     res = engine.Result("C10")
-    res.rules = ["SETOP-TABLE", "OP-WIRING", "ALIAS-GUARD", "FRESH-ONLY", "OPERAND-ADAPT"]
+    res.rules = ["SETOP-TABLE", "OP-WIRING", "ALIAS-GUARD", "FRESH-ONLY", "OPERAND-ADAPT", "INPLACE-MONOTONE", "INPLACE-OPERAND"]
     res.exhaustive = True
     res.explanation = (
         "Decision-table extraction for difference / union / intersection: for "
@@ -30,7 +30,11 @@ def run(tier="quick", seed=0, use_cache=True):
         "with operands in order; in-place -= and ^= test `other is self` "
         "before iterating the operand; set-operation code applies mutating "
         "APIs only to objects it created; arbitrary iterables are sorted and "
-        "made duplicate-free. Assumes container cursors yield strictly "
+        "made duplicate-free; no loop of an in-place operator both adds to "
+        "and removes from the container (INPLACE-MONOTONE: per-occurrence "
+        "toggling, C x22 and Python); the Python in-place operators consume "
+        "their operand exactly once and never through a membership test "
+        "(INPLACE-OPERAND: one-shot iterators, str). Assumes container cursors yield strictly "
         "increasing keys (C01); result equality on concrete operands is not "
         "decided.")
     res.assumptions = ["container cursors yield strictly increasing keys (C01)",
@@ -43,6 +47,8 @@ def run(tier="quick", seed=0, use_cache=True):
     oo = out["OO"]["stats"]
     res.floor("operator slots checked (OO)", oo["slots"], 20)
     res.floor("in-place alias guards (OO)", oo["inplace"], 4)
+    res.floor("mutations of self inside loops of the in-place operators (OO)", oo.get("inplace_loop_mutations", 0), 8)
+    res.count("INPLACE-MONOTONE", sum(r["stats"].get("inplace_loop_mutations", 0) for r in out.values()))
     res.floor("translation units", len(out), 22)
     res.count("OP-WIRING", sum(r["stats"]["slots"] for r in out.values()))
     res.count("ALIAS-GUARD", sum(r["stats"]["inplace"] for r in out.values()))
